@@ -8,7 +8,7 @@ RULE = ("C17: programs spawning futures (spawn_local), awaiting / aborting / det
 
 def run(tier):
     feats = ("spawn", "join", "yield", "atomic", "mutex", "sem", "async", "async", "async", "rand", "park")
-    res = run_prog_check("C17", PROPS, tier, ["c03", "objects:C03:C04:C17", "sync2:C17", "c17wake"], features=feats, n_quick=4000, n_thorough=80000, rule=RULE, scenarios=(1500, 30000), lifecycle=(900, 12000), focus=["mutex", "sem", "park"], focus_n=(1000, 20000), exhaustive=["sem", "mutex", "park"], exh_n=(20, 200))
+    res = run_prog_check("C17", PROPS, tier, ["c03", "objects:C03:C04:C17", "sync2:C17", "c17wake", "c07await"], features=feats, n_quick=4000, n_thorough=80000, rule=RULE, scenarios=(1500, 30000), lifecycle=(900, 12000), focus=["mutex", "sem", "park"], focus_n=(1000, 20000), exhaustive=["sem", "mutex", "park"], exh_n=(20, 200))
     if isinstance(res, int):
         return res
     ctx, cases, mo, io = res
